@@ -14,7 +14,7 @@ ASSUMPTIONS = ["file-based routes (write+read) are exercised by C03's continuati
 
 
 def histories(rng, tier):
-    n = 150 if tier == 'quick' else 3000
+    n = 350 if tier == 'quick' else 3000
     out = []
     for _ in range(n):
         c = gen.rand_cfg(rng, max_npix=768, name='x', min_delta=0)
